@@ -1,5 +1,7 @@
 """Registry: per property, the harnesses (solver queries), bounds and what lies outside them."""
 from .kani import H
+from .gentypes import gen_types
+from . import genpages
 
 
 class Prop:
@@ -314,3 +316,135 @@ def _c14():
 
 
 PROPS["C14"] = _c14()
+
+
+# ------------------------------------------------------------------------------------------- C19
+def _c19():
+    hs = [
+        H("c19::wrong_length_rejected", "40-byte symbolic buffer, symbolic length 0..=40 except 16: SignType::from_bytes", unwind=3, params={"lengths": "0..=40 \\ {16}"}),
+        H("c19::sixteen_bytes_total", "all 16 bytes of a configuration block symbolic (2^128 blocks): acceptance iff family/id of a supported type, decoded type, re-encoding, error payload", unwind=20, unwindset=[memcmp(20)], params={"bytes": 16}),
+        H("c19::every_type_consistent", "every supported type (list re-read from sign_type.rs): 16-byte block, decodes to itself, height/width/bits-per-column (Max3000) and height/width/A1*B1+A2*B2 (Horizon) agree with dimensions()", unwind=20, unwindset=[memcmp(20)], params={"types": "all"}),
+        H("c19::ids_distinct", "no two supported types share (family, id)", unwind=20, params={"pairs": "all"}),
+        H("c19::virtual_sign_derives_dimensions", "VirtualSign::new + ReceiveConfig + SendData(0, block of any supported type): derived width/height equal dimensions(), type recorded", unwind=20, unwindset=[memcmp(20)], params={"types": "all"}),
+    ]
+    return Prop(
+        "C19",
+        ["SignType::from_bytes", "SignType::to_bytes", "SignType::dimensions", "VirtualSign::process_message (receive_config, send_data)"],
+        "every supported type (variant list regenerated from sign_type.rs each run); all 2^128 16-byte blocks; every length 0..=40 with symbolic contents",
+        "byte strings longer than 40 bytes (the length test is a single comparison)",
+        [],
+        COMMON_ASSUME + ["field positions of the block as documented in sign_type.rs 'Format Details'"],
+        ["c19::"],
+        hs,
+        generators=[gen_types],
+    )
+
+
+PROPS["C19"] = _c19()
+
+
+# ------------------------------------------------------------------------------------------- C20
+def _c20():
+    hs = [
+        H("c20::configure_port_direct", "configure_port::<CfgPort>: prior PortSettings fully symbolic (11 baud rates + BaudOther(any usize), 4 char sizes, 3 parities, 2 stop bits, 3 flow controls), caller timeout symbolic (any Duration), one device operation among read_settings/write_settings/set_timeout refused (symbolic) or none", unwind=3, params={"prior_settings": "all", "fault": "any single op or none"}),
+        H("c20::serial_sign_bus_try_new", "SerialSignBus::try_new on the same symbolic port: settings, 5 s timeout, error propagation", unwind=3, params={"timeout_s": 5}),
+        H("c20::odk_try_new", "Odk::try_new on the same symbolic port: constructor fails iff the port refused an operation", unwind=3, params={"timeout_s": 10}),
+    ]
+    return Prop(
+        "C20",
+        ["flipdot_serial::configure_port::<CfgPort>", "SerialSignBus::<CfgPort>::try_new", "Odk::<CfgPort, NullBus>::try_new", "serial_core::SerialPort::reconfigure (blanket impl, executed as compiled)"],
+        "the complete product of prior port settings, any caller timeout, every single injected refusal; instantiation P = harness CfgPort",
+        "ports whose settings object rejects set_baud_rate(19200) (PortSettings never does); two refusals in one call (the first one already aborts); the 10 s of Odk::try_new is checked only through configure_port (Odk exposes no port accessor)",
+        [],
+        COMMON_ASSUME,
+        ["c20::"],
+        hs,
+    )
+
+
+PROPS["C20"] = _c20()
+
+
+# ------------------------------------------------------------------------------------------- C06 / C07
+def _page_specs(fams, prop):
+    hs = []
+    for w, h, q in genpages.sizes():
+        tb = genpages.total_bytes(w, h)
+        big = tb > 64
+        for fam, desc, needs in fams:
+            if needs == "pixel" and not (w > 0 and h > 0):
+                continue
+            if needs == "two" and not (w * h >= 2):
+                continue
+            if needs == "seq" and not (2 <= w * h <= 64):
+                continue
+            name = "gen_pages::%s_%dx%d" % (fam, w, h)
+            tier = "quick" if q else "thorough"
+            if needs == "seq" and not (q and tb <= 16):
+                tier = "thorough"
+            ef = []
+            if fam == "c06_oob":
+                ef = [r"byte_bit_indices|Page::<'_>::(get_pixel|set_pixel)"]
+            hs.append(
+                H(
+                    name,
+                    "%dx%d page (%d bytes): %s" % (w, h, tb, desc),
+                    tier=tier,
+                    unwind=4,
+                    unwindset=[("pages::|bytes_eq", tb + 20), memcmp(tb + 20), ("fill|spec_fill|resize|extend_with|extend_trusted", tb + 20)],
+                    params={"width": w, "height": h, "total_bytes": tb},
+                    expect_fail=ef,
+                    timeout=1500,
+                    mem_expect=6 if big else 3,
+                )
+            )
+    return hs
+
+
+C06_FAMS = [
+    ("c06_set_get", "page over ANY byte content (all bytes symbolic, borrowed), symbolic in-bounds (x,y) and value, second symbolic pixel: set_pixel/get_pixel/as_bytes/id/width/height", "two"),
+    ("c06_oob", "ANY content; (x,y) over the full u32 range with x>=w or y>=h; get_pixel or set_pixel must panic (never return)", ""),
+    ("c06_set_all", "ANY content; set_all_pixels(symbolic value): header, padding, length, every pixel byte", ""),
+    ("c06_set_all_reads", "ANY content; after set_all_pixels every (symbolic) pixel reads the value", "pixel"),
+    ("c06_sequence3", "ANY content; 3 symbolic pixel writes tracked against a bit model", "seq"),
+]
+C07_FAMS = [
+    ("c07_new", "Page::new with symbolic id: [id,0x10,0,0] + zeros + 0xFF padding, length", ""),
+    ("c07_new_set", "new page, one symbolic in-bounds pixel turned on: exactly bit y%8 of byte 4+x*ceil(h/8)+y/8", "pixel"),
+    ("c07_from_bytes", "from_bytes over a borrowed slice of symbolic length 0..=total+17 and symbolic content: accepted iff length = padded size; error fields; exposes the bytes; rebuild equals", ""),
+    ("c07_new_roundtrip", "from_bytes(new.as_bytes().to_vec()) == new (owned data)", ""),
+]
+
+PAGE_BOUNDS = "sizes: boundary classes (0x0, 5x0, 1x1, 2x9, 2x17, 1x33, 12x8 and 28x8 which have no padding; thorough adds 0x5, 1x8, 2x7, 3x16, 1x24, 6x16, 3x1, 1x7, 2x12, 1x255) and the dimensions of every supported sign type re-read from sign_type.rs (quick: 30x10, 30x7, 40x12; thorough: all); per size every byte content, every coordinate (full u32 range for the out-of-bounds check), both pixel values"
+
+
+def _c06():
+    return Prop(
+        "C06",
+        ["Page::get_pixel", "Page::set_pixel", "Page::set_all_pixels", "Page::byte_bit_indices", "Page::from_bytes", "Page::as_bytes", "Page::{id,width,height}", "Page::{bytes_per_column,data_bytes,total_bytes}"],
+        PAGE_BOUNDS + "; sequences of 3 writes on the small sizes (longer sequences follow from the one-step result, which starts from arbitrary content)",
+        "dimensions not listed (the index arithmetic for ALL u32 dimensions is decided separately by the SMT obligation); sequences longer than 3 as a direct check",
+        [],
+        COMMON_ASSUME + ["oracle: refmodel::ref_* page arithmetic in u64, from page.rs 'Format Details'", "out-of-bounds harnesses expect the documented panic inside Page::byte_bit_indices / get_pixel / set_pixel and nothing else"],
+        ["gen_pages::c06_"],
+        _page_specs(C06_FAMS, "C06"),
+        generators=[genpages.gen_pages],
+    )
+
+
+def _c07():
+    return Prop(
+        "C07",
+        ["Page::new", "Page::from_bytes", "Page::as_bytes", "Page::set_pixel", "Page::{bytes_per_column,data_bytes,total_bytes,byte_bit_indices}", "<Page as PartialEq>::eq"],
+        PAGE_BOUNDS + "; from_bytes lengths 0..=padded size+17",
+        "dimensions not listed (arithmetic for all u32 dimensions: SMT obligation); candidate lengths above padded size + 17",
+        [],
+        COMMON_ASSUME + ["oracle: refmodel::ref_* page arithmetic in u64"],
+        ["gen_pages::c07_"],
+        _page_specs(C07_FAMS, "C07"),
+        generators=[genpages.gen_pages],
+    )
+
+
+PROPS["C06"] = _c06()
+PROPS["C07"] = _c07()
